@@ -16,8 +16,8 @@ Open Scope nat_scope.
    (the class's dataclass fields, then `cls`): Model/C09_expr.v. *)
 Inductive aval :=
 | ANone | AStr (s : string) | AExpr (cls : string) (vals : list fval)
-(* what only the inspector lets through (known finding C09-F8): `parameter.default.__name__` that is not a string --
-   another JSON-serialisable Python value, or an object json has no rule for *)
+(* what only the API lets in (the inspector did until the repair 5db8f3a of finding C09-F8): another JSON-serialisable
+   Python value, or an object json has no rule for *)
 | ARaw (j : json) | AObject.
 
 Record decorator := mkDeco { d_value : aval; d_lineno : option Z; d_endlineno : option Z }.
@@ -189,8 +189,8 @@ Fixpoint loadable (t : obj) : bool :=
   end.
 
 (* json.dumps raises TypeError ("Object of type ... is not JSON serializable") when an object without encoding rule is
-   reached; the place the loaders can leave one: a parameter default (inspector._convert_parameter); annotations
-   (parameter, return, property) are looked at as well (they held objects until fix 4debb62) *)
+   reached; looked for where the inspector used to leave one: parameter defaults (until fix 5db8f3a), parameter / return /
+   property annotations (until fix 4debb62) *)
 Definition is_object (a : aval) : bool := match a with AObject => true | _ => false end.
 Definition spec_has_object (k : kindspec) : bool :=
   match k with
